@@ -1,4 +1,5 @@
 import Gleece.Properties.C03
+import Gleece.Properties.Serve
 #print axioms Gleece.Router.gateFirst_handlerOf
 #print axioms Gleece.Router.runList_none_iff
 #print axioms Gleece.Router.authorize_none
@@ -11,3 +12,6 @@ import Gleece.Properties.C03
 #print axioms Gleece.Reduce.effective_security
 #print axioms Gleece.Reduce.default_applies
 #print axioms Gleece.Reduce.effective_empty_iff
+#print axioms Gleece.Serve.called_only_if_approved
+#print axioms Gleece.Serve.all_denied_refused
+#print axioms Gleece.Serve.approvesAll_deny
